@@ -155,8 +155,12 @@ func fan(c *core.Ctx, fn, dm *core.Fn) {
 		return nil
 	}
 	var wg types.Object
-	for _, call := range core.CallsAll(worker, info, func(call *ast.CallExpr, _ types.Object) bool { return isWG(call, "Done") != nil }) {
-		wg = isWG(call, "Done")
+	for _, m := range []string{"Wait", "Add", "Done"} { // the WaitGroup that the supervisor and its workers use
+		for _, call := range core.CallsAll(sup, info, func(call *ast.CallExpr, _ types.Object) bool { return isWG(call, m) != nil }) {
+			if o := isWG(call, m); o != nil && c07.Within(identPos(o), sup) {
+				wg = o
+			}
+		}
 	}
 	switch {
 	case group != nil && await != nil && spawn != nil && goStmt != nil:
@@ -221,7 +225,7 @@ func fan(c *core.Ctx, fn, dm *core.Fn) {
 		}
 		waits := gs.Points(isCall("Wait"))
 		adds := core.Calls(sup, info, func(call *ast.CallExpr, _ types.Object) bool { return isWG(call, "Add") == wg })
-		if len(waits) != 1 || len(adds) != 1 {
+		if len(waits) > 1 || len(adds) != 1 {
 			c.Undecidedf("R4.bounds", "decode", sup.Pos(), "expected one Wait and one Add on the workers' WaitGroup in the supervising goroutine, found %d/%d", len(waits), len(adds))
 			return
 		}
@@ -237,12 +241,17 @@ func fan(c *core.Ctx, fn, dm *core.Fn) {
 		default:
 			c.Failf("R4.bounds", "decode", adds[0].Pos(), "%s workers are spawned but the WaitGroup counts %s: with fewer the output channel is closed while workers still send (panic / lost lines), with more the run never ends", c.Src(bs), c.Src(adds[0].Args[0]))
 		}
-		c.Okf("R4.token", "decode/await-each", waits[0].Node().Pos(), "WaitGroup.Wait returns only when every worker has called Done")
+		if len(waits) == 1 {
+			c.Okf("R4.token", "decode/await-each", waits[0].Node().Pos(), "WaitGroup.Wait returns only when every worker has called Done")
+		}
 		direct = isCall("Done")
 		contains = func(root ast.Node) bool {
 			return len(core.CallsAll(root, info, func(call *ast.CallExpr, _ types.Object) bool { return isWG(call, "Done") == wg })) > 0
 		}
-		joined, joinNode = isCall("Wait"), waits[0].Node()
+		joined = isCall("Wait")
+		if len(waits) == 1 {
+			joinNode = waits[0].Node()
+		}
 	default:
 		c.Undecidedf("R4.bounds", "decode", sup.Pos(), "expected a counted spawn loop with `go <worker>` and either a loop receiving the workers' tokens or a sync.WaitGroup")
 		return
@@ -296,7 +305,9 @@ func fan(c *core.Ctx, fn, dm *core.Fn) {
 			wOrder = []string{"close inside the spawn/await loop"}
 		}
 	}
-	if joinNode == nil || gs.Path(cfgq.Query{From: mustFind(gs, joinNode), After: true, Target: c07.IsNode(goStmt)}) != nil {
+	if joinNode == nil {
+		wOrder = []string{"the supervisor never waits for its workers"}
+	} else if gs.Path(cfgq.Query{From: mustFind(gs, joinNode), After: true, Target: c07.IsNode(goStmt)}) != nil {
 		wOrder = []string{"a worker is spawned after the join started"}
 	}
 	c.Check("R4.close-output", "decode/after-all-tokens", sup.Pos(), wOrder == nil, "the output channel may be closed only after the join collected every worker's token / Done: closed earlier, workers panic on send or their lines are lost", wOrder...)
